@@ -1008,6 +1008,10 @@ def make_module(I):
                 raise Unsupported("np.%s with symbolic shape" % what)
             if any(s < 0 for s in shape):
                 return exc("ValueError", "negative dimensions are not allowed")
+            if isinstance(dtype, BuiltinClass) and dtype.name in ("int8", "int16", "int32"):
+                # narrower signed integers: the same element kind; their range is an assumption, not modelled
+                I.trust("numpy-narrow-int", "A5: int8 / int16 / int32 arrays hold mathematical integers (no OverflowError / wrap-around at the type's range); their dtype is reported as the integer kind")
+                dtype = "int64"
             kind = as_dtype_kind(dtype) or "f"
             if kind not in ("f", "i", "b"):
                 raise Unsupported("np.%s with dtype kind %s" % (what, kind))
